@@ -60,7 +60,7 @@ def make_case(ctx, idx):
         opts = r.sample(range(len(OPTS)), 2)
     else:
         opts = list(range(len(OPTS)))
-    dest = r.choice(["str", "text", "bytes"])
+    dest = r.choice(["str", "text", "bytes", "text_file_other_codec"])
     return {"ops": ops, "opts": opts, "dest": dest}
 
 
@@ -81,6 +81,8 @@ def write(doc, opt, dest):
         s = io.StringIO()
         doc.serialize(s, format="json", **opt)
         return s.getvalue()
+    if dest == "text_file_other_codec":
+        return common.text_file_roundtrip(doc, "json", **opt)[0]
     b = io.BytesIO()
     doc.serialize(b, format="json", **opt)
     return b.getvalue().decode("utf-8")
